@@ -135,8 +135,9 @@ impl Family {
                 }
             }
             Family::Exp3 | Family::ExpN(_) => vec![j],
+            // the Gaussian is DECLARED as f(width, centre): p1 before p0 - neither model order nor alphabetical order
             Family::GaussDecayOff => match j {
-                0 => vec![0, 1],
+                0 => vec![1, 0],
                 1 => vec![2],
                 _ => vec![],
             },
